@@ -460,6 +460,14 @@ Definition route_md_value (v : val) : option mval :=
   | VL _ => option_map (fun parts => MTuple (split_path_info (slash :: join slash_text parts))) (get_texts v)
   | VI _ => None
   end.
+(* the `traverse` entry of a route's match dictionary: what the pattern captured (a `*traverse` remainder, a
+   {traverse} placeholder) if it captures anything -- however empty -- else the value the traverse= option generates
+   (pyramid.predicates.TraversePredicate: a membership test, not a truth test), else absent *)
+Definition traverse_entry (captured : option mval) (option_parts : option (list text)) : option mval :=
+  match captured with
+  | Some v => Some v
+  | None => option_map (fun parts => MTuple (split_path_info (slash :: join slash_text parts))) option_parts
+  end.
 Definition put_mval (m : mval) : val := match m with MStr s => VT s | MTuple l => vtexts l end.
 Definition put_opt_mval (o : option mval) : val := match o with Some m => VL [put_mval m] | None => VL [] end.
 
@@ -489,9 +497,10 @@ Definition run_op (tree : res) (v : val) : option val :=
       let q := mkReq pi md vr in
       Some (VL [put_result put_attrs (router_traversal ([], tree) q);
                 put_result put_attrs (spec_router_traversal ([], tree) q)])
-  | VL [VI 7%Z; t; sp] =>
+  | VL [VI 7%Z; t; sp; topt] =>
       olet t := get_opt route_md_value t in olet sp := get_opt route_md_value sp in
-      let out := VL [VI 9; put_opt_mval t; put_opt_mval sp] in
+      olet topt := get_opt get_texts topt in
+      let out := VL [VI 9; put_opt_mval (traverse_entry t topt); put_opt_mval sp] in
       Some (VL [out; out])
   | VL [VI 5%Z; VT seg; VT safe] =>
       Some (VL [put_result (fun t => VL [VI 6; VT t]) (quote_path_segment_safe seg safe); VL []])
